@@ -74,4 +74,358 @@ theorem hasSubKeys_eq_subPred (v : Val) (subs : SubKeys) : hasSubKeys v subs = s
 theorem hasSubKeys_nil (v : Val) : hasSubKeys v [] = true := by
   simp [hasSubKeys]
 
+/-! ### ValuesForKey -/
+
+theorem hasSubKeys_scalar (v : Val) (subs : SubKeys) (hm : v.isMap = false) :
+    hasSubKeys v subs = subs.isEmpty := by
+  unfold hasSubKeys
+  cases hs : subs.isEmpty
+  · cases v <;> simp_all [Val.isMap]
+  · simp
+
+theorem loadKeyVal_nil (v : Val) : loadKeyVal [] v = members v := by
+  cases v <;> simp [loadKeyVal, members, hasSubKeys_nil]
+
+theorem loadKeyVal_filter (subs : SubKeys) (v : Val) :
+    loadKeyVal subs v = (members v).filter (fun x => hasSubKeys x subs) := by
+  cases v with
+  | map kvs =>
+    simp only [loadKeyVal, members, List.filter_cons, List.filter_nil]
+  | list xs => simp only [loadKeyVal, members]
+  | null => cases subs <;> simp [loadKeyVal, members, hasSubKeys]
+  | bool b => cases subs <;> simp [loadKeyVal, members, hasSubKeys]
+  | num t => cases subs <;> simp [loadKeyVal, members, hasSubKeys]
+  | str t => cases subs <;> simp [loadKeyVal, members, hasSubKeys]
+
+mutual
+theorem hasKey_filter (key : Str) (subs : SubKeys) : ∀ v : Val,
+    hasKey key subs v = (hasKey key [] v).filter (fun x => hasSubKeys x subs)
+  | .map kvs => by
+      simp only [hasKey, List.filter_append, ← hasKeyEntries_filter key subs kvs]
+      congr 1
+      congr 1
+      · cases lookup key kvs with
+        | none => rfl
+        | some v => simp only [loadKeyVal_filter subs v, loadKeyVal_nil]
+      · by_cases hk : key = ['*']
+        · simp only [hk, if_true, List.filter_flatMap, loadKeyVal_nil]
+          congr 1; funext e; exact loadKeyVal_filter subs e.2
+        · simp only [hk, if_false, List.filter_nil]
+  | .list xs => by simp only [hasKey]; exact hasKeyList_filter key subs xs
+  | .null => by simp [hasKey]
+  | .bool _ => by simp [hasKey]
+  | .num _ => by simp [hasKey]
+  | .str _ => by simp [hasKey]
+theorem hasKeyList_filter (key : Str) (subs : SubKeys) : ∀ xs : List Val,
+    hasKeyList key subs xs = (hasKeyList key [] xs).filter (fun x => hasSubKeys x subs)
+  | [] => by simp [hasKeyList]
+  | x :: xs => by
+      simp only [hasKeyList, List.filter_append, ← hasKey_filter key subs x,
+        ← hasKeyList_filter key subs xs]
+theorem hasKeyEntries_filter (key : Str) (subs : SubKeys) : ∀ kvs : Entries,
+    hasKeyEntries key subs kvs = (hasKeyEntries key [] kvs).filter (fun x => hasSubKeys x subs)
+  | [] => by simp [hasKeyEntries]
+  | (k, v) :: rest => by
+      simp only [hasKeyEntries, List.filter_append, ← hasKey_filter key subs v,
+        ← hasKeyEntries_filter key subs rest]
+end
+
+/-- with distinct keys the literal lookup is the filter of the entries carrying that key -/
+theorem lookup_filter (key : Str) : ∀ kvs : Entries, distinctKeys kvs = true →
+    (match lookup key kvs with
+      | some v => members v
+      | none => []) = (kvs.filter fun e => e.1 = key).flatMap fun e => members e.2
+  | [], _ => by simp [lookup]
+  | (k, v) :: rest, h => by
+      simp only [distinctKeys, Bool.and_eq_true, Bool.not_eq_true', List.any_eq_false,
+        beq_iff_eq] at h
+      by_cases hk : key = k
+      · subst hk
+        have hnone : rest.filter (fun e => decide (e.1 = key)) = [] := by
+          rw [List.filter_eq_nil_iff]
+          intro e he; simpa using h.1 e he
+        simp only [lookup, if_true, List.filter_cons, decide_true, hnone, List.flatMap_cons,
+          List.flatMap_nil, List.append_nil]
+      · have hk' : ¬ k = key := fun e => hk e.symm
+        simp only [lookup, hk, if_false, List.filter_cons, hk', decide_false,
+          Bool.false_eq_true]
+        exact lookup_filter key rest h.2
+
+theorem lookup_star_none : ∀ kvs : Entries, noStarKeyEntries kvs = true → lookup ['*'] kvs = none
+  | [], _ => rfl
+  | (k, v) :: rest, h => by
+      simp only [noStarKeyEntries, Bool.and_eq_true, bne_iff_ne, ne_eq] at h
+      have hk : ¬ ['*'] = k := fun e => h.1.1 e.symm
+      simp only [lookup, hk, if_false]
+      exact lookup_star_none rest h.2
+
+/-- the per-node hits of `hasKey` are exactly the values the specification says are stored there -/
+theorem hits_eq_storedAt (key : Str) (kvs : Entries) (hd : distinctKeys kvs = true)
+    (hstar : key = ['*'] → noStarKeyEntries kvs = true) :
+    (match lookup key kvs with
+      | some v => loadKeyVal [] v
+      | none => [])
+    ++ (if key = ['*'] then kvs.flatMap (fun e => loadKeyVal [] e.2) else [])
+      = storedAt key (.map kvs) := by
+  by_cases hk : key = ['*']
+  · subst hk
+    simp only [lookup_star_none kvs (hstar rfl), if_true, List.nil_append, storedAt,
+      decide_true, Bool.true_or, loadKeyVal_nil]
+    rw [List.filter_eq_self.2 (fun _ _ => rfl)]
+  · simp only [hk, if_false, List.append_nil, storedAt, decide_false, Bool.false_or,
+      loadKeyVal_nil]
+    exact lookup_filter key kvs hd
+
+mutual
+theorem hasKey_eq_nodes (key : Str) : ∀ v : Val, v.wf = true →
+    (key = ['*'] → noStarKey v = true) →
+    hasKey key [] v = (nodes v).flatMap (storedAt key)
+  | .map kvs, hwf, hstar => by
+      simp only [Val.wf, Bool.and_eq_true] at hwf
+      simp only [noStarKey] at hstar
+      simp only [hasKey, nodes, List.flatMap_cons]
+      rw [← hasKeyEntries_eq_nodes key kvs hwf.1 hstar]
+      have h := hits_eq_storedAt key kvs hwf.2 hstar
+      cases hl : lookup key kvs <;> simp only [hl] at h ⊢ <;> rw [h]
+  | .list xs, hwf, hstar => by
+      simp only [Val.wf] at hwf
+      simp only [noStarKey] at hstar
+      simp only [hasKey, nodes, List.flatMap_cons, storedAt, List.nil_append]
+      exact hasKeyList_eq_nodes key xs hwf hstar
+  | .null, _, _ => by simp [hasKey, nodes, storedAt]
+  | .bool _, _, _ => by simp [hasKey, nodes, storedAt]
+  | .num _, _, _ => by simp [hasKey, nodes, storedAt]
+  | .str _, _, _ => by simp [hasKey, nodes, storedAt]
+theorem hasKeyList_eq_nodes (key : Str) : ∀ xs : List Val, Val.wfList xs = true →
+    (key = ['*'] → noStarKeyList xs = true) →
+    hasKeyList key [] xs = (nodesList xs).flatMap (storedAt key)
+  | [], _, _ => by simp [hasKeyList, nodesList]
+  | x :: xs, hwf, hstar => by
+      simp only [Val.wfList, Bool.and_eq_true] at hwf
+      simp only [noStarKeyList, Bool.and_eq_true] at hstar
+      simp only [hasKeyList, nodesList, List.flatMap_append]
+      rw [hasKey_eq_nodes key x hwf.1 (fun h => (hstar h).1),
+        hasKeyList_eq_nodes key xs hwf.2 (fun h => (hstar h).2)]
+theorem hasKeyEntries_eq_nodes (key : Str) : ∀ kvs : Entries, Val.wfEntries kvs = true →
+    (key = ['*'] → noStarKeyEntries kvs = true) →
+    hasKeyEntries key [] kvs = (nodesEntries kvs).flatMap (storedAt key)
+  | [], _, _ => by simp [hasKeyEntries, nodesEntries]
+  | (k, v) :: rest, hwf, hstar => by
+      simp only [Val.wfEntries, Bool.and_eq_true] at hwf
+      simp only [noStarKeyEntries, Bool.and_eq_true] at hstar
+      simp only [hasKeyEntries, nodesEntries, List.flatMap_append]
+      rw [hasKey_eq_nodes key v hwf.1 (fun h => (hstar h).1.2),
+        hasKeyEntries_eq_nodes key rest hwf.2 (fun h => (hstar h).2)]
+end
+
+/-! ### PathsForKey -/
+
+theorem joinWith_concat (sep : Str) (k : Str) : ∀ xs : List Str, xs ≠ [] →
+    joinWith sep (xs ++ [k]) = joinWith sep xs ++ sep ++ k
+  | [], h => absurd rfl h
+  | [x], _ => by simp [joinWith]
+  | x :: y :: rest, _ => by
+      have ih := joinWith_concat sep k (y :: rest) (by simp)
+      simp only [List.cons_append] at ih
+      simp only [List.cons_append, joinWith, ih, List.append_assoc]
+
+theorem joinDot_ne_nil : ∀ pre : List Str, pre ≠ [] → (∀ k ∈ pre, k ≠ []) → joinDot pre ≠ []
+  | [], h, _ => absurd rfl h
+  | [x], _, hk => by simpa [joinDot, joinWith] using hk x (by simp)
+  | x :: y :: rest, _, hk => by
+      have hx : x ≠ [] := hk x (by simp)
+      simp [joinDot, joinWith, hx]
+
+theorem crumb_joinDot (pre : List Str) (k : Str) (hpre : ∀ x ∈ pre, x ≠ []) :
+    crumb (joinDot pre) k = joinDot (pre ++ [k]) := by
+  unfold crumb
+  cases pre with
+  | nil => simp [joinDot, joinWith]
+  | cons x rest =>
+    have hne : joinDot (x :: rest) ≠ [] := joinDot_ne_nil _ (by simp) hpre
+    have he : (joinDot (x :: rest)).isEmpty = false := by
+      cases h : joinDot (x :: rest) with
+      | nil => exact absurd h hne
+      | cons _ _ => rfl
+    simp only [he, Bool.false_eq_true, if_false]
+    exact (joinWith_concat ['.'] k (x :: rest) (by simp)).symm
+
+theorem keySafe_ne_nil (k : Str) (h : keySafe k = true) : k ≠ [] := by
+  intro e; subst e; simp [keySafe] at h
+
+mutual
+theorem keyPaths_ne_nil : ∀ (v : Val) (q : List Str), q ∈ keyPaths v → q ≠ []
+  | .map kvs, q, h => keyPathsEntries_ne_nil kvs q (by simpa [keyPaths] using h)
+  | .list xs, q, h => keyPathsList_ne_nil xs q (by simpa [keyPaths] using h)
+  | .null, q, h => by simp [keyPaths] at h
+  | .bool _, q, h => by simp [keyPaths] at h
+  | .num _, q, h => by simp [keyPaths] at h
+  | .str _, q, h => by simp [keyPaths] at h
+theorem keyPathsList_ne_nil : ∀ (xs : List Val) (q : List Str), q ∈ keyPathsList xs → q ≠ []
+  | [], q, h => by simp [keyPathsList] at h
+  | x :: xs, q, h => by
+      simp only [keyPathsList, List.mem_append] at h
+      cases h with
+      | inl h => exact keyPaths_ne_nil x q h
+      | inr h => exact keyPathsList_ne_nil xs q h
+theorem keyPathsEntries_ne_nil : ∀ (kvs : Entries) (q : List Str), q ∈ keyPathsEntries kvs → q ≠ []
+  | [], q, h => by simp [keyPathsEntries] at h
+  | (k, v) :: rest, q, h => by
+      simp only [keyPathsEntries, List.mem_append, List.mem_cons, List.mem_map] at h
+      rcases h with (h | ⟨q', _, h⟩) | h
+      · subst h; simp
+      · subst h; simp
+      · exact keyPathsEntries_ne_nil rest q h
+end
+
+theorem getLast?_cons_of_ne_nil {α} (a : α) (l : List α) (h : l ≠ []) :
+    (a :: l).getLast? = l.getLast? := by
+  cases l with
+  | nil => exact absurd rfl h
+  | cons b l => simp [List.getLast?_cons]
+
+theorem lookup_cons_isSome (key k : Str) (v : Val) (rest : Entries) :
+    (lookup key ((k, v) :: rest)).isSome = (decide (key = k) || (lookup key rest).isSome) := by
+  by_cases h : key = k <;> simp [lookup, h]
+
+mutual
+theorem mem_hasKeyPath (key : Str) : ∀ (v : Val) (pre : List Str), (∀ k ∈ pre, k ≠ []) →
+    pathSafe v = true → ∀ p : Str,
+    (p ∈ hasKeyPath key (joinDot pre) v ↔
+      ∃ q, q ∈ keyPaths v ∧ q.getLast? = some key ∧ p = joinDot (pre ++ q))
+  | .map kvs, pre, hpre, hs, p => by
+      simp only [pathSafe] at hs
+      simp only [hasKeyPath, keyPaths, List.mem_append]
+      rw [← mem_hasKeyPathEntries key kvs pre hpre hs p, crumb_joinDot pre key hpre, Or.comm]
+      cases (lookup key kvs).isSome <;> simp
+  | .list xs, pre, hpre, hs, p => by
+      simp only [pathSafe] at hs
+      simp only [hasKeyPath, keyPaths]
+      exact mem_hasKeyPathList key xs pre hpre hs p
+  | .null, _, _, _, _ => by simp [hasKeyPath, keyPaths]
+  | .bool _, _, _, _, _ => by simp [hasKeyPath, keyPaths]
+  | .num _, _, _, _, _ => by simp [hasKeyPath, keyPaths]
+  | .str _, _, _, _, _ => by simp [hasKeyPath, keyPaths]
+theorem mem_hasKeyPathList (key : Str) : ∀ (xs : List Val) (pre : List Str),
+    (∀ k ∈ pre, k ≠ []) → pathSafeList xs = true → ∀ p : Str,
+    (p ∈ hasKeyPathList key (joinDot pre) xs ↔
+      ∃ q, q ∈ keyPathsList xs ∧ q.getLast? = some key ∧ p = joinDot (pre ++ q))
+  | [], _, _, _, _ => by simp [hasKeyPathList, keyPathsList]
+  | x :: xs, pre, hpre, hs, p => by
+      simp only [pathSafeList, Bool.and_eq_true] at hs
+      simp only [hasKeyPathList, keyPathsList, List.mem_append,
+        mem_hasKeyPath key x pre hpre hs.1 p, mem_hasKeyPathList key xs pre hpre hs.2 p]
+      constructor
+      · rintro (⟨q, h1, h2⟩ | ⟨q, h1, h2⟩)
+        · exact ⟨q, Or.inl h1, h2⟩
+        · exact ⟨q, Or.inr h1, h2⟩
+      · rintro ⟨q, h1 | h1, h2⟩
+        · exact Or.inl ⟨q, h1, h2⟩
+        · exact Or.inr ⟨q, h1, h2⟩
+theorem mem_hasKeyPathEntries (key : Str) : ∀ (kvs : Entries) (pre : List Str),
+    (∀ k ∈ pre, k ≠ []) → pathSafeEntries kvs = true → ∀ p : Str,
+    ((p ∈ hasKeyPathEntries key (joinDot pre) kvs
+        ∨ ((lookup key kvs).isSome = true ∧ p = joinDot (pre ++ [key]))) ↔
+      ∃ q, q ∈ keyPathsEntries kvs ∧ q.getLast? = some key ∧ p = joinDot (pre ++ q))
+  | [], _, _, _, _ => by simp [hasKeyPathEntries, keyPathsEntries, lookup]
+  | (k, v) :: rest, pre, hpre, hs, p => by
+      simp only [pathSafeEntries, Bool.and_eq_true] at hs
+      have hk : k ≠ [] := keySafe_ne_nil k hs.1.1
+      have hpre' : ∀ x ∈ pre ++ [k], x ≠ [] := by
+        intro x hx
+        simp only [List.mem_append, List.mem_singleton] at hx
+        cases hx with
+        | inl hx => exact hpre x hx
+        | inr hx => subst hx; exact hk
+      have ihv := mem_hasKeyPath key v (pre ++ [k]) hpre' hs.1.2 p
+      have ihr := mem_hasKeyPathEntries key rest pre hpre hs.2 p
+      simp only [hasKeyPathEntries, List.mem_append, crumb_joinDot pre k hpre,
+        lookup_cons_isSome, Bool.or_eq_true, decide_eq_true_eq]
+      constructor
+      · rintro ((h | h) | ⟨h | h, hp⟩)
+        · obtain ⟨q', hq', hl, hp⟩ := ihv.1 h
+          refine ⟨k :: q', ?_, ?_, ?_⟩
+          · simp only [keyPathsEntries, List.mem_append, List.mem_cons, List.mem_map]
+            exact Or.inl (Or.inr ⟨q', hq', rfl⟩)
+          · rw [getLast?_cons_of_ne_nil k q' (keyPaths_ne_nil v q' hq')]; exact hl
+          · rw [hp, List.append_assoc]; rfl
+        · obtain ⟨q, hq, hl, hp⟩ := ihr.1 (Or.inl h)
+          refine ⟨q, ?_, hl, hp⟩
+          simp only [keyPathsEntries, List.mem_append]
+          exact Or.inr hq
+        · subst h
+          refine ⟨[key], ?_, rfl, hp⟩
+          simp [keyPathsEntries]
+        · obtain ⟨q, hq, hl, hp⟩ := ihr.1 (Or.inr ⟨h, hp⟩)
+          refine ⟨q, ?_, hl, hp⟩
+          simp only [keyPathsEntries, List.mem_append]
+          exact Or.inr hq
+      · rintro ⟨q, hq, hl, hp⟩
+        simp only [keyPathsEntries, List.mem_append, List.mem_cons, List.mem_map] at hq
+        rcases hq with (hq | ⟨q', hq', hq⟩) | hq
+        · subst hq
+          simp only [List.getLast?_singleton, Option.some.injEq] at hl
+          subst hl
+          exact Or.inr ⟨Or.inl rfl, hp⟩
+        · subst hq
+          rw [getLast?_cons_of_ne_nil k q' (keyPaths_ne_nil v q' hq')] at hl
+          refine Or.inl (Or.inl (ihv.2 ⟨q', hq', hl, ?_⟩))
+          rw [hp, List.append_assoc]; rfl
+        · rcases ihr.2 ⟨q, hq, hl, hp⟩ with h | ⟨h, hp⟩
+          · exact Or.inl (Or.inr h)
+          · exact Or.inr ⟨Or.inr h, hp⟩
+end
+
+theorem nodup_eraseDups_aux {α} [BEq α] [LawfulBEq α] : ∀ (n : Nat) (l : List α),
+    l.length ≤ n → l.eraseDups.Nodup
+  | _, [], _ => by simp
+  | 0, a :: as, h => by simp at h
+  | n + 1, a :: as, h => by
+      rw [List.eraseDups_cons, List.nodup_cons]
+      constructor
+      · simp [List.mem_eraseDups, List.mem_filter]
+      · apply nodup_eraseDups_aux n
+        have := List.length_filter_le (fun b => !b == a) as
+        simp only [List.length_cons] at h
+        omega
+
+theorem nodup_eraseDups {α} [BEq α] [LawfulBEq α] (l : List α) : l.eraseDups.Nodup :=
+  nodup_eraseDups_aux l.length l (Nat.le_refl _)
+
+/-! ### PathForKeyShortest -/
+
+theorem shortest_fold : ∀ (ps : List Str) (p : Str),
+    let r := ps.foldl (fun best q => if segCount q < segCount best then q else best) p
+    (r = p ∨ r ∈ ps) ∧ segCount r ≤ segCount p ∧ ∀ q ∈ ps, segCount r ≤ segCount q
+  | [], p => by simp
+  | a :: ps, p => by
+      intro r
+      have ih := shortest_fold ps (if segCount a < segCount p then a else p)
+      simp only [] at ih
+      have hr : r = ps.foldl (fun best q => if segCount q < segCount best then q else best)
+          (if segCount a < segCount p then a else p) := rfl
+      rw [← hr] at ih
+      obtain ⟨h1, h2, h3⟩ := ih
+      by_cases hlt : segCount a < segCount p
+      · simp only [hlt, if_true] at h1 h2
+        refine ⟨Or.inr ?_, by omega, ?_⟩
+        · cases h1 with
+          | inl h => simp [h]
+          | inr h => simp [h]
+        · intro q hq
+          simp only [List.mem_cons] at hq
+          cases hq with
+          | inl h => subst h; exact h2
+          | inr h => exact h3 q h
+      · simp only [hlt, if_false] at h1 h2
+        refine ⟨?_, h2, ?_⟩
+        · cases h1 with
+          | inl h => exact Or.inl h
+          | inr h => exact Or.inr (by simp [h])
+        · intro q hq
+          simp only [List.mem_cons] at hq
+          cases hq with
+          | inl h => subst h; omega
+          | inr h => exact h3 q h
+
 end Mxj
